@@ -64,6 +64,9 @@ func expandAndEvaluate(expr []token, all map[string][]token, resolved map[string
 			symVal, ok := resolved[tok.val]
 			if ok {
 				expanded = append(expanded, symVal...)
+				if len(expanded) > maxExpressionTokens {
+					return 0, fmt.Errorf("expression expands to more than %d tokens", maxExpressionTokens)
+				}
 				continue
 			}
 		}
@@ -103,6 +106,10 @@ func expandValue(key string, values, resolved map[string][]token, graph map[stri
 	// while replacing reference tokens with their resolved values
 	output := make([]token, 0)
 	for _, token := range value {
+		if len(output) > maxExpressionTokens {
+			// stop before more is built than can be accepted
+			break
+		}
 		if token.typ == tokText {
 			depVal, depOk := resolved[token.val]
 			if depOk {
